@@ -1358,6 +1358,7 @@ func (o *ovsdbClient) handleDisconnectNotification() {
 	if o.options.reconnect && !o.shutdown {
 		o.rpcClient = nil
 		o.rpcMutex.Unlock()
+		verifPoint(o, "disconnect:unlocked")
 		suppressionCounter := 1
 		connect := func() error {
 			// need to ensure deferredUpdates is cleared on every reconnect attempt
